@@ -37,6 +37,10 @@ CHECKS.update({
              text="Exploration plus an exhaustively enumerated sub-space (reported in the evidence). Seeded add/resize/query scripts on the real ring buffer are compared with a list model (ids, ranges, bounds, recent events), event-store batches with the size in force, and subscribers of concurrent stream runs must receive a gap-free, repeat-free run of ids that ends with the last event."),
 })
 
+CHECKS["C14"] = dict(engine="conc", design="4/C14", technique="Go race detector (-race) + go-deadlock lock-order/timeout detection + seeded lock-acquire yields over a concurrent workload; bounded-progress (quiescence + double goroutine dump); quiescent-state oracles on the final snapshot",
+    note="Trusted: Go race detector, go-deadlock, the harness. Only interleavings that were executed are judged. Final-state violations in runs with node removal / application removal / reload / RM-bound allocations match known findings (races in the core, see known_findings.json); the calm class (asks, releases, capacity changes, drains, foreign allocations, confirmations, REST readers) has no known finding except the reservation three-view race.",
+    text="Exploration of schedules. Each case is a 5-7 s run of the real core with its scheduling loop, handlers, quota preemption loop, 50 ms health checker and timers under -race and go-deadlock, hammered by 3-6 clients, a confirmer, a reloader, a node updater and 3 REST readers, with seeded yields at every lock acquisition and GOMAXPROCS 2-16. Reports: data races (de-duplicated by innermost core frame pair), lock-order inversions / potential deadlocks, blocked goroutines after the input stops, final-state invariant violations.")
+
 for k in CHECKS:
     CHECKS[k].setdefault("engine", "det")
 
@@ -78,6 +82,7 @@ def main():
         "not_applicable": na,
     }
     m["engines"].append({"name": "pure", "path": "harness/pure", "serves_properties": sorted(k for k, v in CHECKS.items() if v["engine"] == "pure"), "kind_free_text": "reference-model monitors: the real functions / data structures of the pure packages are executed on seeded inputs next to a small independent model; the deciding step is the comparison of what the real code did with what it may do"})
+    m["engines"].append({"name": "conc", "path": "harness/conc", "serves_properties": sorted(k for k, v in CHECKS.items() if v["engine"] == "conc"), "kind_free_text": "concurrent engine: real goroutines of the core plus client/confirmer/reloader/node-updater/REST goroutines; -race binary, DEADLOCK_DETECTION_ENABLED=true, seeded yield hook in pkg/locking"})
     extra = globals().get("ENGINES_EXTRA")
     if extra:
         m["engines"] += extra
